@@ -88,6 +88,7 @@ StacksByTest == {s \in StacksAll : \E i \in DOMAIN s.nodes : s.nodes[i].k = "ByT
 StacksText == {s \in StacksAll : \E i \in DOMAIN s.nodes : s.nodes[i].k = "Text"}
 StText == {s \in StacksAll : s.name = "Text"}
 StacksSetFF == {s \in StacksAll : CanSetFFKind(s.nodes[1].k)}
+StacksOld == {s \in StacksAll : \E i \in DOMAIN s.nodes : s.nodes[i].k \in OldStyle}
 StacksTimes == {s \in StacksAll : \E i \in DOMAIN s.nodes : s.nodes[i].k \in {"ByTest", "TFR", "Ext", "E2S", "Tw"}}
 
 \* --- call alphabets ------------------------------------------------------------
@@ -105,6 +106,8 @@ Out3 == {<<"success", "none">>, <<"failure", "det">>, <<"uxsuccess", "det">>}
 Out4 == {<<"success", "none">>, <<"error", "exc">>, <<"failure", "det">>, <<"uxsuccess", "none">>}
 Out2 == {<<"success", "det">>, <<"failure", "exc">>}
 Out1 == {<<"success", "none">>}
+\* the outcomes whose details an old-style target gets as a synthetic exception / reason, plus one without details
+OutDet == {<<"error", "det">>, <<"failure", "detr">>, <<"xfail", "det">>, <<"skip", "detr">>, <<"success", "none">>}
 TagOps4 == {<<{"a"}, {}>>, <<{"b"}, {}>>, <<{}, {"a"}>>, <<{"b"}, {"a"}>>}
 TagOps3 == {<<{"a"}, {}>>, <<{}, {"a"}>>, <<{"b"}, {"a"}>>}
 TagOps2 == {<<{"a"}, {}>>, <<{"b"}, {"a"}>>}
